@@ -342,8 +342,13 @@ def check_backward(w, rec, st, how):
                 m = None
                 if fwd.get("family") not in ("scat", "scat2"):
                     st["compared_tol"] += 1
+                    # the bound is relative to what goes IN (the gradient handed
+                    # to backward), not to what comes out: a constant cotangent
+                    # through a highpass adjoint cancels to ~0 exactly when the
+                    # filters sum to zero exactly, which float32-rounded ones do not
+                    cs = max([float(c.detach().abs().max()) for c in cots if c.numel()] + [0.0])
                     m = compare(rec["out_snap"], ref_snap, "tol", 1e-5,
-                                scale=max(max_abs(ref_snap), 1e-30))
+                                scale=max(max_abs(ref_snap), cs, 1e-30))
                 if not m and fwd["kind"] in ("call", "inverse") and fwd.get("state") is not None:
                     cur = expected_dtype(fwd["recipe"])
                     L = fresh(cur)
@@ -393,8 +398,9 @@ def check_backward(w, rec, st, how):
         elif occ == "ok":
             sc = snap(list(gc_))
             in_dt = DTNAME.get(selc[1][0].dtype, "float32")
+            cs = max([float(c.detach().abs().max()) for c in selc[1] if c.numel()] + [0.0])
             m = compare(snap(list(gs)), sc, "tol", 16 * EPS.get(in_dt, EPS["float32"]),
-                        scale=max(1e-30, max_abs(sc)))
+                        scale=max(1e-30, max_abs(sc), cs))
             if m:
                 w.violation("D4-strided", rec, "backward with a %s gradient vs its contiguous copy: %s"
                             % (rec["op"]["cot_layout"], m))
@@ -549,8 +555,18 @@ def check_d4(w, rec, st, kind, in_dt):
             w.violation("D4-strided", rec, "strided input: %s, contiguous copy: %s" % (oc1, oc2))
         elif oc1 == "ok":
             s2 = snap(v2)
+            # relative to the larger of output and input magnitude (a constant
+            # input through a highpass channel leaves pure rounding noise)
+            if kind == "call":
+                xin = abs(rec["op"]["arg"].get("scale", 1.0)) if rec["op"]["arg"].get("fill") else 0.0
+                try:
+                    xin = max(xin, max_abs(snap(make_tensor(rec["op"]["arg"])[1])))
+                except Exception:  # noqa
+                    pass
+            else:
+                xin = max_abs(snap([rec["pyr"][0][0]] + [f[0] for f in rec["pyr"][1] if f is not None]))
             m = compare(snap(v1), s2, "tol", 16 * EPS.get(in_dt, EPS["float32"]),
-                        scale=max(1e-30, max_abs(s2)))
+                        scale=max(1e-30, max_abs(s2), xin))
             if m:
                 w.violation("D4-strided", rec, "strided input vs contiguous copy: " + m)
 
